@@ -490,6 +490,24 @@ class GreedySelector(SelectorMixin, MetaEstimatorMixin, BaseEstimator):
         }
 
 
+def _residual_tolerance(selector, last_selected):
+    """Threshold below which the residual of ``last_selected`` counts as zero.
+
+    The residual of an item that is an exact copy (or combination) of items selected
+    before is round-off: about machine epsilon times the norm of the item itself. The
+    user tolerance is therefore taken relative to that norm (and never below 100
+    machine epsilons of the working array), as in the warm-start check.
+    """
+    tol = max(selector.tolerance, 100 * np.finfo(selector.X_current_.dtype).eps)
+    where = np.flatnonzero(
+        selector.selected_idx_[: selector.n_selected_] == last_selected
+    )
+    if len(where) == 0:
+        return tol
+    item = np.take(selector.X_selected_, where[-1], axis=selector._axis)
+    return tol * max(1.0, np.linalg.norm(item))
+
+
 class _CUR(GreedySelector):
     """Transformer that performs Greedy Selection by choosing features
     which maximize the magnitude of the right or left singular vectors, consistent with
@@ -654,13 +672,14 @@ class _CUR(GreedySelector):
         self.pi_[self.selected_idx_[: self.n_selected_]] = 0.0
 
     def _orthogonalize(self, last_selected):
+        tol = _residual_tolerance(self, last_selected)
         if self._axis == 1:
             self.X_current_ = X_orthogonalizer(
-                x1=self.X_current_, c=last_selected, tol=self.tolerance
+                x1=self.X_current_, c=last_selected, tol=tol
             )
         else:
             self.X_current_ = X_orthogonalizer(
-                x1=self.X_current_.T, c=last_selected, tol=self.tolerance
+                x1=self.X_current_.T, c=last_selected, tol=tol
             ).T
 
 
@@ -865,13 +884,14 @@ class _PCovCUR(GreedySelector):
         return pi
 
     def _orthogonalize(self, last_selected):
+        tol = _residual_tolerance(self, last_selected)
         if self._axis == 1:
             self.X_current_ = X_orthogonalizer(
-                x1=self.X_current_, c=last_selected, tol=self.tolerance
+                x1=self.X_current_, c=last_selected, tol=tol
             )
         else:
             self.X_current_ = X_orthogonalizer(
-                x1=self.X_current_.T, c=last_selected, tol=self.tolerance
+                x1=self.X_current_.T, c=last_selected, tol=tol
             ).T
         if self.y_current_ is not None:
             if self._axis == 1:
